@@ -176,13 +176,13 @@ fn many(name: String, params: Value) -> Scenario {
 /// A window of w live subscriptions; every round: drop one stream (the oldest / the newest / one in
 /// the middle), a message naming the dropped and all live ones, a new subscription (SUBACK, stream),
 /// a message for the newest alone, one for each live one, one for all.
-fn rolling(name: String, params: Value) -> Scenario {
+pub fn rolling(prop: &'static str, name: String, params: Value) -> Scenario {
     let rounds = params["rounds"].as_u64().unwrap_or(14) as usize;
     Box::new(move |chz, ex| {
         let w = [1usize, 2, 3, 4, 5, 7, 8, 9][chz.choose(8)];
         let victim = chz.choose(3);
         let removal_seen = chz.choose(2) == 1;
-        let mut sys = Sys::new("C07", &name, chz);
+        let mut sys = Sys::new(prop, &name, chz);
         sys.params = params.clone();
         sys.m.check_client_acks = false;
         sys.bring_up(vec![]);
@@ -222,6 +222,24 @@ fn rolling(name: String, params: Value) -> Scenario {
                 let mut ids = vec![gone];
                 ids.extend(live.iter().map(|x| x.1));
                 sys.apply(Ev::Deliver(inbound(0, false, 0, &ids, &format!("g{}", round))));
+            }
+            if params["abandon"].as_bool().unwrap_or(false) && !sys.dead {
+                // (C15) a subscribe whose future is dropped before its SUBACK: its registration is
+                // retired by the next message that names it; the late SUBACK is absorbed
+                let op = sys.m.ops.len();
+                sys.apply(Ev::Start(OpSpec::Subscribe(SubscribeSpec::simple(&format!("s/abandoned{}", op)))));
+                sys.apply(Ev::Cancel(op));
+                let id = sys.m.ops.get(op).and_then(|o| o.sub).and_then(|sb| sys.m.subs[sb].sub_id);
+                if let (Some(id), false) = (id, sys.dead) {
+                    if round % 2 == 0 {
+                        let mut ids = vec![id];
+                        ids.extend(live.iter().map(|x| x.1));
+                        sys.apply(Ev::Deliver(inbound(0, false, 0, &ids, &format!("ab{}", round))));
+                    }
+                    if let Some(a) = sys.ack_for(op, 0, "") {
+                        sys.apply(Ev::Deliver(a));
+                    }
+                }
             }
             subscribe(&mut sys, &mut live);
             if sys.dead {
@@ -331,7 +349,7 @@ pub fn scenario(name: &str, params: &Value) -> Scenario {
         });
     }
     if name == "C07/rolling" {
-        return rolling(name.to_string(), params.clone());
+        return rolling("C07", name.to_string(), params.clone());
     }
     if name == "C07/bits" {
         return bits(name.to_string(), params.clone());
